@@ -58,7 +58,7 @@ pub fn keys() -> &'static Keys {
 		let pk = |b: u8| PublicKey::from_secret_key(&secp, &SecretKey::from_slice(&[b; 32]).unwrap());
 		// Node keys are chosen so that the byte order of the node ids is *not* the index order
 		// (both "source < target" polarities occur on payer- and payee-adjacent channels).
-		let node: Vec<PublicKey> = [11u8, 12, 13, 14, 15, 16].iter().map(|b| pk(*b)).collect();
+		let node: Vec<PublicKey> = [11u8, 7, 13, 12, 15, 16].iter().map(|b| pk(*b)).collect();
 		let node_id = node.iter().map(NodeId::from_pubkey).collect();
 		let btc1 = pk(101);
 		let btc2 = pk(102);
